@@ -134,6 +134,19 @@ type SSEServerTransport struct {
 	mu     sync.Mutex    // also guards writes to Response
 	closed bool          // set when the stream is closed
 	done   chan struct{} // closed when the connection is closed
+
+	// methodInfos, if non-nil, returns the methods accepted by the server this
+	// transport is connected to (the standard methods plus any custom methods
+	// registered on that server). It is set by [Server.Connect], before the
+	// transport is connected.
+	methodInfos func() map[string]methodInfo
+}
+
+// setReceivingMethodInfos implements the hook used by [Server.Connect] to tell
+// the transport which methods the server accepts, so that requests are
+// pre-validated against the server's own method table.
+func (t *SSEServerTransport) setReceivingMethodInfos(f func() map[string]methodInfo) {
+	t.methodInfos = f
 }
 
 // ServeHTTP handles POST requests to the transport endpoint.
@@ -158,7 +171,11 @@ func (t *SSEServerTransport) ServeHTTP(w http.ResponseWriter, req *http.Request)
 		return
 	}
 	if req, ok := msg.(*jsonrpc.Request); ok {
-		if _, err := checkRequest(req, serverMethodInfos); err != nil {
+		methodInfos := serverMethodInfos
+		if t.methodInfos != nil {
+			methodInfos = t.methodInfos()
+		}
+		if _, err := checkRequest(req, methodInfos); err != nil {
 			http.Error(w, err.Error(), http.StatusBadRequest)
 			return
 		}
